@@ -338,7 +338,12 @@ func mutateBytes(r *runner.Rng, s string) string {
 
 func deepInput(r *runner.Rng, idx uint64) string {
 	n := []int{10, 100, 1000, 5000, 16000, 32000}[r.Intn(6)]
-	switch idx % 14 {
+	switch idx % 15 {
+	case 14:
+		// a ?: b nested on the left: the parser shares the node of a between
+		// the condition and the first arm
+		k := []int{8, 16, 30, 45, 200, 2000}[r.Intn(6)]
+		return strings.Repeat("(", k) + "A" + strings.Repeat(" ?: 1)", k)
 	case 0:
 		return strings.Repeat("(", n) + "A" + strings.Repeat(")", n)
 	case 1:
